@@ -47,7 +47,7 @@ BATCH_TIMEOUT = 1500
 
 REG_TOL_ARCSEC = 0.2
 COARSEST_SPAN = 6           # constructions store pixels at levels maxdepth-6 .. maxdepth
-REG_MAX_POLY = 300          # write_reg builds one SkyCoord per vertex (about 2 ms per polygon)
+REG_MAX_POLY = 200          # write_reg builds one SkyCoord per vertex (about 2 ms per polygon)
 
 
 # ---------------------------------------------------------------------------------------------- mechanism predicates
@@ -459,7 +459,7 @@ def cases(seed, tier):
             out.append({'kind': 'direct', 'depth': M, 'what': what, 'via': 'methods', 'seed': [0, 'direct', M, what]})
         if M <= 6:
             out.append({'kind': 'direct', 'depth': M, 'what': 'whole', 'via': 'methods', 'seed': [0, 'whole', M]})
-    nrand = 10 if tier == 'quick' else 80
+    nrand = 8 if tier == 'quick' else 80
     for M in range(1, 13):
         for k in range(nrand):
             what = ('circle', 'circle_poly', 'single_each_level')[k % 3]
@@ -468,7 +468,7 @@ def cases(seed, tier):
     for M in (2, 5, 9):
         out.append({'kind': 'direct', 'depth': M, 'what': 'circle_poly', 'via': 'functions', 'seed': [0, 'fn', M]})
         out.append({'kind': 'direct', 'depth': M, 'what': 'single_each_level', 'via': 'cli', 'seed': [0, 'cli', M]})
-    nh = 80 if tier == 'quick' else 1200
+    nh = 64 if tier == 'quick' else 1000
     for k in range(nh):
         out.append({'kind': 'history', 'depth': 2 + k % 9, 'length': 8, 'seed': [seed, 'hist', k],
                     'via': 'methods' if k % 4 else 'functions'})
